@@ -13,6 +13,8 @@ func ByNames(names []string) []Script {
 			out = append(out, &Delegation{})
 		case "valrewards":
 			out = append(out, &ValRewards{})
+		case "governance-strangers":
+			out = append(out, &Governance{Tag: "gs", Strangers: true})
 		case "governance":
 			out = append(out, &Governance{Tag: "g"})
 		case "eth":
